@@ -4,10 +4,10 @@ and (re)builds the detection matrix: for every seeded change, apply it to a scra
 its property (and related ones) against that worktree through VERIF_REPO, remove the worktree.  /repo itself is never touched."""
 import json, os, shutil, subprocess, sys
 
-SRCS = [("/tmp/seeded", 1), ("/tmp/seeded2", 2), ("/tmp/seeded3", 3), ("/tmp/seeded4", 4), ("/tmp/seeded5", 5), ("/tmp/seeded6", 6), ("/tmp/seeded7", 7), ("/tmp/seeded8", 8)]
+SRCS = [("/tmp/seeded", 1), ("/tmp/seeded2", 2), ("/tmp/seeded3", 3), ("/tmp/seeded4", 4), ("/tmp/seeded5", 5), ("/tmp/seeded6", 6), ("/tmp/seeded7", 7), ("/tmp/seeded8", 8), ("/tmp/seeded9", 9)]
 VERIF = os.path.dirname(os.path.dirname(os.path.abspath(__file__)))
 DST = os.path.join(VERIF, "seeded")
-RELATED = {"C02": ["C14"], "C03": ["C02", "C14"], "C14": ["C02"], "C10": ["C09", "C04", "C14"], "C18": [], "C08": [], "C07": ["C08"], "C09": ["C14", "C04"], "C11": ["C12"], "C12": ["C13"], "C13": ["C12"]}
+RELATED = {"C02": ["C14"], "C03": ["C02", "C14"], "C14": ["C02"], "C10": ["C09", "C04", "C14"], "C18": [], "C08": [], "C07": ["C08", "C02"], "C09": ["C14", "C04", "C17"], "C11": ["C12"], "C12": ["C13"], "C13": ["C12"]}
 STRENGTHENED = {
     "C03-dedup-swallows-ack": "missed at first; C03 gained forced message-ID collisions (stray ACK/RST and a peer request on the ID the CON is going to use)",
     "C03-timeout-fails-wrong-request": "missed by C03 at first (caught by C02 and C14); C03 gained a bystander request registered later",
@@ -174,6 +174,32 @@ STRENGTHENED = {
     "C19-nfkc-fallback-lookup": "missed at first; the component alphabet gained compatibility forms of dots and slashes and the names next to the root",
     "C19-prune-empty-dirs-overshoots-root": "harness fault at first (the emptied-tree history assumed its directories); the history with the deepest file deleted last was added",
     "C20-empty-update-fastpath-stale-base": "missed at first; C20 gained updates of an endpoint that has moved to another address",
+    # round 9
+    "C01-enum-cache-evict": "missed at first; C01 gained an ordinary datagram parsed again after 3000 datagrams with unregistered option numbers",
+    "C02-retire-recomputes-key": "missed at first; C02 gained the same Message object submitted again while its first request is outstanding",
+    "C02-abandoned-timeout-drops-backlog": "missed by C02 (needs every copy lost); C14 reports it (withdrawn head of the queue given up)",
+    "C03-initial-timeout-additive-spread": "reported, but the as-built run took more than half an hour (a pristine interpreter per job); the explorer now keeps one per worker and remembers confirmed signatures",
+    "C05-block-option-three-bytes": "missed by C05 at first (C01 caught it); C05 gained two transfers of 65700 bytes in 16-byte blocks",
+    "C06-block2-empty-rendering-keeps-stale-cache": "missed at first; C06 gained a representation that is sometimes empty",
+    "C06-timeoutdict-overwrite-no-refresh": "missed at first; C06 gained the prefixes in which an entry that survived a sweep is replaced shortly before the next one",
+    "C07-cancelled-wait-drops-notifications": "missed at first; C07 gained the consumer whose wait timed out and who comes back to the iterator - which showed defect C07-F3 on the unchanged tree (fixed by 7b8f423)",
+    "C07-token-trailing-zero-collision": "not reported by C07 (it needs thousands of other requests); C02's forced token-counter scenario reports it",
+    "C08-observe-number-counts-triggers": "missed at first; C08 gained S-OBS-slowrender-two (exactly one change while the previous re-rendering is under way)",
+    "C09-diag-payload-ascii-only": "missed at first; the outcome table gained a non-ASCII diagnostic text",
+    "C09-wkc-nomatch-unicast-suppressed": "missed at first; C09 gained a discovery request whose filter matches nothing, C17 the rule that listings for unicast requesters are not marked for suppression",
+    "C10-broken-error-ignores-no-response": "not reported by C10 (the change is in pipe.py); C09's No-Response x failing-renderer cells report it",
+    "C10-non-stored-as-reply": "missed at first; C04 gained the handler kind whose separate response is sent non-confirmably",
+    "C11-blockwise-key-drops-context": "missed at first; C11's transport family gained the guarded block-wise resource and requests outside the security context for its later blocks",
+    "C12-plain-response-inits-window": "missed at first; the arrival alphabet gained plain responses (no Partial IV of their own) in both window states",
+    "C13-exhausted-response-fallback": "missed at first; C13 gained responses at the end of the number space",
+    "C14-released-mid-zero-not-counted": "missed at first; C14 gained S-BL-wrap (the message-ID counter wraps while messages are held back)",
+    "C14-failed-release-strands-backlog": "not reported: it needs a transport whose send() raises for a message released from the backlog (udp6 reports send errors through its error path instead) or an application that spoils a message after submitting it; on the unchanged tree such a raise escapes into the event loop as well",
+    "C15-partial-extlen-early-reject": "missed at first; C15 gained frames of 65 kB - 1 MB cut inside their header (1 MiB local maximum)",
+    "C15-release-error-deferred-to-close": "missed at first; the client-role runs gained a peer that stops reading (connection_lost never comes)",
+    "C16-host-lowercase-table-misses-z": "missed at first; the host alphabet gained every upper-case letter behind a percent-escape",
+    "C17-wkc-shared-site-visited": "missed at first; C17 gained one Site object mounted under several prefixes",
+    "C19-expanduser-after-join": "missed at first; C19 gained the server whose root is '.' with the home directory elsewhere",
+    "C20-linkformat-empty-value-dropped": "missed at first; C20 gained empty parameter and attribute values and compares link attributes in resource lookups",
 }
 
 
